@@ -40,7 +40,9 @@ impl Core {
         self.offs.push(off);
         let total: usize = bufs.iter().map(|b| b.len()).sum();
         match self.answers.pop_front() {
-            Some(Ans::Err) => Err(io::Error::from_raw_os_error(libc::EIO)),
+            // the failing call's errno varies with the case (EIO, EINVAL as an O_DIRECT file gives
+            // for unaligned buffers, EBADF, ENOSPC): an error is an error whatever its number
+            Some(Ans::Err) => Err(io::Error::from_raw_os_error([libc::EIO, libc::EINVAL, libc::EBADF, libc::ENOSPC][(self.seed % 4) as usize])),
             Some(Ans::Intr) => Err(io::Error::from(io::ErrorKind::Interrupted)),
             Some(Ans::N(k)) => Ok(std::cmp::min(k, total)),
             None => Ok(total),
